@@ -102,3 +102,54 @@ impl World {
         s
     }
 }
+
+/// The same store reached either directly (`Store`) or through the registry functions of lib.rs.
+pub enum Backend {
+    Direct(lucid_suggest_core::Store),
+    Registry(usize),
+}
+
+impl World {
+    /// `via_registry`: create_store / set_limit / highlight_with / add_record instead of Store
+    pub fn backend(&self, via_registry: bool) -> Backend {
+        if !via_registry {
+            return Backend::Direct(self.store());
+        }
+        let id = 4242;
+        lucid_suggest_core::create_store(id, lang_of(self.lang));
+        lucid_suggest_core::set_limit(id, self.limit);
+        lucid_suggest_core::highlight_with(id, (&self.markers.0, &self.markers.1));
+        for (rid, t, r) in &self.recs {
+            lucid_suggest_core::add_record(id, *rid, t, *r);
+        }
+        Backend::Registry(id)
+    }
+}
+
+impl Backend {
+    pub fn set_markers(&mut self, l: &str, r: &str) {
+        match self {
+            Backend::Direct(s) => s.highlight_with((l, r)),
+            Backend::Registry(id) => lucid_suggest_core::highlight_with(*id, (l, r)),
+        }
+    }
+    pub fn search(&self, q: &str) -> Vec<(usize, String)> {
+        match self {
+            Backend::Direct(s) => search(s, q),
+            Backend::Registry(id) => {
+                lucid_suggest_core::run_search(*id, q);
+                lucid_suggest_core::using_results(*id, |res| res.iter().map(|r| (r.id, r.title.clone())).collect())
+            }
+        }
+    }
+}
+
+impl Drop for Backend {
+    fn drop(&mut self) {
+        if let Backend::Registry(id) = self {
+            if !std::thread::panicking() {
+                lucid_suggest_core::destroy_store(*id);
+            }
+        }
+    }
+}
